@@ -155,12 +155,15 @@ class mm_reader {
                 // line already holds the matrix sizes
                 is.clear(); is.str(line);
                 precondition(is >> n >> m >> nnz, format_error());
+                precondition(n >= 0 && m >= 0, format_error("negative matrix size"));
+                precondition(!_symmetric || n == m,
+                        format_error("symmetric matrix is not square"));
             }
 
             if (row_beg < 0) row_beg = 0;
             if (row_end < 0) row_end = n;
 
-            precondition(row_beg >= 0 && row_end <= n,
+            precondition(row_beg >= 0 && row_beg <= row_end && row_end <= n,
                     "Wrong subset of rows is requested");
 
             ptrdiff_t _nnz = _symmetric ? 2 * nnz : nnz;
@@ -187,6 +190,9 @@ class mm_reader {
 
                 i -= 1;
                 j -= 1;
+
+                precondition(0 <= i && i < n && 0 <= j && j < m,
+                        format_error("index out of range"));
 
                 v = read_value<Val>(is);
 
@@ -263,12 +269,13 @@ class mm_reader {
                 // line already holds the matrix sizes
                 is.clear(); is.str(line);
                 precondition(is >> n >> m, format_error());
+                precondition(n >= 0 && m >= 0, format_error("negative matrix size"));
             }
 
             if (row_beg < 0) row_beg = 0;
             if (row_end < 0) row_end = n;
 
-            precondition(row_beg >= 0 && row_end <= n,
+            precondition(row_beg >= 0 && row_beg <= row_end && row_end <= n,
                     "Wrong subset of rows is requested");
 
             val.resize((row_end - row_beg) * m);
